@@ -213,6 +213,27 @@ LOCATION_SCHED = [b"http://127.0.0.1:70000/next", b"http://127.0.0.1:65536/next"
                   b"http://127.0.0.1:@PORT@/next", b"/next?port=70000", b"http://127.0.0.1:65536", b"http://[::ffff:127.0.0.1]:70000/"]
 
 
+RETRY_VALUES = [b"9" * 400, b"9" * 4000, b"9" * 309, b"1" + b"0" * 308, b"1" + b"0" * 309, b"9" * 4301, b"0", b"-1", b"-0", b"+5", b"00010",
+                b"-" + b"9" * 400, "٣٠٠٠".encode("utf-8"), ("٩" * 400).encode("utf-8"), "１０".encode("utf-8"),
+                b"1e400", b"1_000", b" 100", b"100 ", b"NaN", b"inf", b"0x10", b"", b"3000", b"1", b"4294967296", b"9223372036854775808",
+                b"1" + b"_0" * 200]
+
+
+def gen_retry_case(k):
+    """event stream with a hostile `retry:` field; the scripted server then cuts the connection and the (reconnectable)
+    client is serviced on while its clock advances, so that the retry value is USED for the reconnect timer"""
+    v = RETRY_VALUES[k % len(RETRY_VALUES)]
+    form = (k // len(RETRY_VALUES)) % 4
+    body = b"retry: " + v + b"\n\n" + (b"id: 7\n" if form & 1 else b"") + b"data: x\n\n"
+    if form & 2:
+        m = Msg(b"HTTP/1.1 200 OK", [b"Content-Type: text/event-stream", b"Transfer-Encoding: chunked"],
+                chunks=[[b"%x" % len(body), body, CRLF]])
+        m.last = None
+    else:
+        m = Msg(b"HTTP/1.1 200 OK", [b"Content-Type: text/event-stream"], body)
+    return {"segs": [L(m.render())], "shape": ["retry_sched"], "reject": False, "control": False, "reconnect": True}
+
+
 def gen_target_case(k):
     """every request target of the dictionary on a fixed schedule"""
     t = TARGETS[k % len(TARGETS)]
